@@ -22,11 +22,14 @@ gvars == <<vars, hist, gphase, script, pc>>
 
 Log(r) == hist' = Append(hist, r)
 
-SendExp(d) == IF sndErr'[d] THEN "refused" ELSE "ok"
+\* a send step was refused iff it put nothing on the wire (sndErr is sticky: a sender
+\* refused once may go on to send unprotected frames, so it cannot be used here)
+SendRefused(d) == wire'[d] = wire[d]
+SendExp(d) == IF SendRefused(d) THEN "refused" ELSE "ok"
 LastFrame(d) == LET f == wire'[d][Len(wire'[d])] IN
   [prot |-> f.prot, hasIV |-> f.hasIV, ctr |-> f.ctr, dig |-> f.dig, end |-> f.end, id |-> f.id]
 SendRec(name, d) ==
-  IF sndErr'[d] THEN [a |-> name, d |-> d, exp |-> "refused"]
+  IF SendRefused(d) THEN [a |-> name, d |-> d, exp |-> "refused"]
   ELSE [a |-> name, d |-> d, exp |-> "ok", frame |-> LastFrame(d)]
 
 RecvRec(d) ==
